@@ -23,6 +23,18 @@ REPAIR_OF = {"C17-stray-closer-noprogress": "a", "C17-truncated-clean-eof": "b",
              "C17-error-precedence": "d", "C17-number-frame-swallow": "e", "C17-validate-string-advance": "f"}
 
 
+REPAIR_PATCH = {"a": "patches/C17-stray-closer-noprogress.diff", "b": "patches/C17-truncated-clean-eof.diff",
+                "c": "patches/C17-scalar-split.diff", "d": "patches/C17-error-precedence.diff",
+                "e": "patches/C17-number-frame-swallow.diff", "f": "patches/C17-validate-string-advance.diff"}
+# the kernel-checked statements (Props/C17.lean) that name the defect each repair removes
+REPAIR_THEOREM = {"a": "shipped_not_decode_progress / patched_head_repairs_witnesses",
+                  "b": "shipped_not_truncated_is_error / patched_head_repairs_witnesses",
+                  "c": "shipped_not_chunking_irrelevant / patched_head_repairs_witnesses",
+                  "d": "shipped_error_precedence / patched_head_repairs_witnesses",
+                  "e": "shipped_number_frame_swallows_values / patched_head_repairs_witnesses",
+                  "f": "Repairs.clamp (Model/IOPatched.lean), corpus/C17/wave3.case"}
+
+
 def repair_flags():
     fl = ""
     for k in core.load_known():
@@ -186,6 +198,10 @@ class C17(Spec):
         prop_ok = (S == P) or (S == P2) or (S == s.get("ref") and self.undecided(case, P, S))
         if not prop_ok:
             detail = "%s: sonic=%s spec=%s ref=%s model=%s why=%s" % (env, S, P, s.get("ref"), m.get("model"), why)
+            lost = [k[3:] for k, v in m.items() if k.startswith("no_") and v == S and S != m.get("model")]
+            if lost:
+                detail += " | behaves like HEAD WITHOUT repair " + ", ".join(
+                    "%s (%s; Lean: %s)" % (x, REPAIR_PATCH.get(x, "?"), REPAIR_THEOREM.get(x, "?")) for x in lost)
             if st == "noprogress":
                 return [("noprogress", detail)]
             if sv != pv:
